@@ -43,6 +43,7 @@ type Op struct {
 	Del  bool   `json:"del,omitempty"`
 	Idx  []int  `json:"idx,omitempty"`
 	Lazy bool   `json:"lazy,omitempty"` // reopen without reading the validators (implementation-only histories)
+	Inp  bool   `json:"inp,omitempty"`  // updval with the in-place convention of the staking module (same call for the model)
 }
 
 type History struct {
@@ -202,7 +203,20 @@ func (e *env) exec(o Op) (ret int64, panicked bool, panicMsg string) {
 		}
 	case "updval":
 		old := st.GetValidatorByMainAddr(valAddr(o.A))
-		if old != nil {
+		if old != nil && o.Inp {
+			// the staking module's convention: copy the stored record, write the stored record itself,
+			// UpdateValidator(stored, copy) - journal entries that point at the stored object see the writes
+			stored := old
+			cp := stored.PartialCopy()
+			stored.Role = params.ValidatorRole(o.B)
+			stored.Status = uint8(o.C)
+			stored.Stake.Set(bigOf(o.V))
+			stored.Token.Set(bigOf(o.W))
+			stored.RewardsLastSettled = o.P
+			if st.UpdateValidator(stored, cp) {
+				ret = 1
+			}
+		} else if old != nil {
 			nv := old.PartialCopy()
 			nv.Role = params.ValidatorRole(o.B)
 			nv.Status = uint8(o.C)
@@ -1139,7 +1153,7 @@ func (g *gen) validatorOp(findings bool) {
 				s, t = v.Stake.String(), v.Token.String()
 			}
 		}
-		g.emit(Op{K: "updval", A: id, B: uint64(1 + r.Intn(3)), C: uint64(r.Intn(2)), V: s, W: t, P: uint64(r.Intn(6))})
+		g.emit(Op{K: "updval", A: id, B: uint64(1 + r.Intn(3)), C: uint64(r.Intn(2)), V: s, W: t, P: uint64(r.Intn(6)), Inp: r.Bool()})
 	case k < 10:
 		g.emit(Op{K: "getval", A: id})
 	case k < 12:
@@ -1525,6 +1539,35 @@ func (g *gen) symbol(sym string) {
 		}
 	case "fin":
 		g.emit(Op{K: "finalise", Del: true})
+	case "vcreate":
+		g.emit(Op{K: "createval", A: 1, B: 1, C: 1, V: "3", W: "30"})
+	case "vcopy", "vinS", "vinT", "vinR", "vinI":
+		// update of validator 1: with a fresh copy, or in place changing stake+token / status / role / an ignored field
+		role, status, stake, token, pay := uint64(1), uint64(1), int64(3), int64(30), uint64(0)
+		if v := g.e.st.GetValidatorByMainAddr(valAddr(1)); v != nil {
+			role, status, stake, token, pay = uint64(v.Role), uint64(v.Status), v.Stake.Int64(), v.Token.Int64(), v.RewardsLastSettled
+		}
+		switch sym {
+		case "vcopy":
+			stake, token = stake+1, token+10
+		case "vinS":
+			stake, token = stake+2, token+20
+		case "vinT":
+			status = 1 - status
+		case "vinR":
+			role = role%3 + 1
+		case "vinI":
+			pay++
+		}
+		g.emit(Op{K: "updval", A: 1, B: role, C: status, V: fmt.Sprint(stake), W: fmt.Sprint(token), P: pay, Inp: sym != "vcopy"})
+	case "vremove":
+		g.emit(Op{K: "rmval", A: 1})
+	case "vdlg": // implementation-only
+		g.emit(Op{K: "upddelegation", A: 1, B: 501, V: "1"})
+	case "vwd":
+		g.emit(Op{K: "addwd", A: 1, B: uint64(len(g.ops) % 3), P: 4})
+	case "vrmwd":
+		g.emit(Op{K: "rmwd", Idx: []int{0}})
 	case "val":
 		if g.e.st.GetValidatorByMainAddr(valAddr(1)) == nil {
 			g.emit(Op{K: "createval", A: 1, B: 1, C: 1, V: "3", W: "30"})
@@ -1532,6 +1575,26 @@ func (g *gen) symbol(sym string) {
 			g.emit(Op{K: "updval", A: 1, B: 2, C: 0, V: "4", W: "40", P: 1})
 		}
 	}
+}
+
+// one validator: every journal entry kind that points at a live object (create, update, delete,
+// withdraw add / remove) against the copy and the in-place caller convention
+var validatorAlphabet = []string{"vcreate", "vcopy", "vinS", "vinT", "vinR", "vinI", "vremove", "snap", "revin", "revout"}
+
+// randomSeq: one random sequence of the given length over alphabet, after a fixed prefix
+func randomSeq(r *vf.Rng, prefix, alphabet []string, n int) []Op {
+	g := &gen{e: newEnv()}
+	for _, s := range prefix {
+		g.symbol(s)
+	}
+	for i := 0; i < n && !g.dead; i++ {
+		sym := alphabet[r.Intn(len(alphabet))]
+		if (sym == "revin" || sym == "revout") && len(g.stack) == 0 {
+			sym = "snap"
+		}
+		g.symbol(sym)
+	}
+	return g.ops
 }
 
 // exhaustive calls f with every sequence over alphabet of length 1..maxLen.
@@ -1839,8 +1902,41 @@ func doGen(seed uint64, n int, outDir, corpusDir, tier string) {
 		exhaustive([]string{"store1", "snap", "revin", "revout", "fin", "val"}, 5, func(ops []Op) { add(History{Ops: ops, Comment: "exhaustive"}) })
 		// storage layers: dirty over pending (earlier transactions) over origin
 		exhaustive([]string{"store1", "store0", "snap", "revin", "fin"}, 6, func(ops []Op) { add(History{Ops: ops, Comment: "exhaustive"}) })
+		// one validator, modelled: all sequences up to length 4
+		exhaustive(validatorAlphabet, 4, func(ops []Op) { add(History{Ops: ops, Comment: "exhaustive"}) })
 		res.Extra["exhaustive_small_scope_histories"] = count - before
 		n += count - before
+		// ... and on the implementation only (oracle): up to length 5 including delegation updates and the
+		// withdraw queue, and length 6 of the form snapshot; create; four more
+		full := append(append([]string{}, validatorAlphabet...), "vdlg", "vwd", "vrmwd")
+		k := 0
+		exhaustive(full, 5, func(ops []Op) { oracleOnly(ops, "small_scope"); k++ })
+		var rec func(prefix []string)
+		rec = func(prefix []string) {
+			if len(prefix) == 6 {
+				g := &gen{e: newEnv()}
+				for _, s := range prefix {
+					g.symbol(s)
+				}
+				oracleOnly(g.ops, "small_scope")
+				k++
+				return
+			}
+			for _, s := range validatorAlphabet {
+				rec(append(append([]string{}, prefix...), s))
+			}
+		}
+		rec([]string{"snap", "vcreate"})
+		res.Extra["exhaustive_validator_oracle_histories"] = k
+	} else if len(loadCorpus(corpusDir)) > 0 || tier != "thorough" {
+		// a random sample of the same small scopes in every other run
+		for i := 0; i < n/12; i++ {
+			add(History{Ops: randomSeq(r, []string{"snap"}, validatorAlphabet, 6), Comment: "small-scope sample"})
+		}
+		full := append(append([]string{}, validatorAlphabet...), "vdlg", "vwd", "vrmwd")
+		for i := 0; i < n/2; i++ {
+			oracleOnly(randomSeq(r, []string{"snap"}, full, 7), "small_scope")
+		}
 	}
 	for count < n {
 		style := 0
